@@ -538,6 +538,8 @@ var c15Srcs = []string{
 	"struct", "ptr_struct", "ints", "strings", "textmar", "stringer",
 	"int", "map", "ptr_int",
 	"nil_ptr_string", "nil_ptr_bytes", "nil_ptr_struct", "nil_ptr_int",
+	// one value behind SEVERAL of the interfaces the producers dispatch on, a different rendering behind each (c15c.go)
+	"textmar_stringer", "textmar_error", "error_stringer", "textmar_error_stringer", "binmar_textmar", "enum", "val_textmar_stringer",
 }
 
 type c15SrcHandle struct {
@@ -611,6 +613,9 @@ func c15MakeSrc(in c15In) c15SrcHandle {
 	case "nil_ptr_int":
 		return c15SrcHandle{(*int)(nil), zero}
 	}
+	if v := c15MakeMulti(in); v != nil {
+		return c15SrcHandle{v, zero}
+	}
 	panic("unknown source " + in.Src)
 }
 
@@ -656,6 +661,9 @@ func c15CoqSrc(in c15In) string {
 		return "SUnsupported"
 	case "nil_ptr_string", "nil_ptr_bytes", "nil_ptr_struct", "nil_ptr_int":
 		return "SNilPtr"
+	}
+	if k := c15CoqMulti(in); k != "" {
+		return k
 	}
 	panic("unknown source " + in.Src)
 }
@@ -1884,12 +1892,14 @@ func c15GenProduce(r *rand.Rand, codec string, maxLen int) c15In {
 	in.Src = c15Srcs[r.Intn(len(c15Srcs))]
 	if r.Intn(3) == 0 {
 		in.Src = []string{"reader", "reader", "buffer", "bytes", "string", "binmar", "textmar", "writerto_rc"}[r.Intn(8)]
+	} else if r.Intn(8) == 0 {
+		in.Src = c15MultiSrcs[r.Intn(len(c15MultiSrcs))]
 	}
 	content := c15StreamContent(r)
 	if maxLen > 0 && len(content) > maxLen {
 		content = content[:maxLen]
 	}
-	if in.Src == "error" || in.Src == "stringer" || in.Src == "struct" || in.Src == "ptr_struct" || in.Src == "strings" {
+	if in.Src == "error" || in.Src == "stringer" || c15MultiHasRet(in.Src) || in.Src == "error_stringer" || in.Src == "enum" || in.Src == "struct" || in.Src == "ptr_struct" || in.Src == "strings" {
 		for len(content) > 300 {
 			content = content[:200]
 		}
@@ -1907,7 +1917,7 @@ func c15GenProduce(r *rand.Rand, codec string, maxLen int) c15In {
 	if r.Intn(4) == 0 {
 		in.WPre = Bs(c15Word(r))
 	}
-	if (in.Src == "binmar" || in.Src == "textmar") && r.Intn(4) == 0 {
+	if (in.Src == "binmar" || in.Src == "textmar" || c15MultiHasRet(in.Src)) && r.Intn(4) == 0 {
 		in.Ret = 2 + r.Intn(5)
 	}
 	if r.Intn(40) == 0 {
@@ -2042,7 +2052,7 @@ func (c15) Enumerate(tier string) []any {
 				}
 				out = append(out, c15In{Kind: "produce", Codec: codec, CloseOpt: closeOpt, NilStrm: true, Src: src, Content: Bs(content), PClos: true,
 					Steps: scripts[1].steps})
-				if src == "binmar" || src == "textmar" {
+				if src == "binmar" || src == "textmar" || c15MultiHasRet(src) {
 					out = append(out, c15In{Kind: "produce", Codec: codec, CloseOpt: closeOpt, Closable: true, Src: src, Content: Bs(content), Ret: 7, Script: "direct/accepting"})
 				}
 			}
